@@ -1861,7 +1861,7 @@ template< typename T, size_t N>
       auto const  dest_value = boost::lexical_cast< T>( list_val);
       if (mUniqueData)
       {
-         if (common::contains( mDestVar, dest_value))
+         if (common::contains( mDestVar, mIndex, dest_value))
          {
             if (mTreatDuplicatesAsErrors)
                throw std::runtime_error( "refuse to store duplicate values in"
@@ -2144,7 +2144,8 @@ template< typename T, size_t N>
       auto const  dest_value = boost::lexical_cast< T>( list_val);
       if (mUniqueData)
       {
-         if (common::contains( mDestVar, dest_value))
+         if (std::find( mDestVar.begin(), mDestVar.begin() + mIndex, dest_value)
+             != mDestVar.begin() + mIndex)
          {
             if (mTreatDuplicatesAsErrors)
                throw std::runtime_error( "refuse to store duplicate values in"
